@@ -579,12 +579,60 @@ def stall_sweep(res: Result) -> int:
     return n
 
 
+def burst_sweep(res: Result) -> int:
+    """One read carries the answer to a call, a burst of other traffic, and one more message of the answer's type.  The caller issues
+    its next call as soon as the first one completes - which is after that read has been processed, so the extra message arrived
+    before the second request was written and is not its answer."""
+    pb = env.pb()
+    n = 0
+    for noise in (False, True):
+        for filler in (0, 1, 127, 128, 129, 300, 1500):
+            key = f"burst:{'noise' if noise else 'plain'}:{filler}"
+            w = ConnWorld(noise=noise, keepalive=1e6)
+            try:
+                w.connect_fully()
+                conn = w.conn
+
+                async def caller() -> tuple[str, str]:
+                    r1 = await conn.send_message_await_response(mk("DeviceInfoRequest"), pb.DeviceInfoResponse, 10.0)
+                    r2 = await conn.send_message_await_response(mk("DeviceInfoRequest"), pb.DeviceInfoResponse, 10.0)
+                    return r1.name, r2.name
+
+                w.spawn("caller", caller)
+                w.drain()
+                n_before = len(w.sent_frames())
+                blob = w.dframe(mk("DeviceInfoResponse", name="answer-1"))
+                for i in range(filler):
+                    blob += w.dframe(mk("SensorStateResponse", key=i, state=1.0))
+                blob += w.dframe(mk("DeviceInfoResponse", name="arrived-before-request-2"))
+                w.io_chunk(w.sock, blob)
+                w.drain()
+                n += 1
+                d = {"harness": "c11-burst", "key": key}
+                if len(w.sent_frames()) != n_before + 1:
+                    res.add(key, f"C11:burst: the second request was not written after the first call completed ({len(w.sent_frames()) - n_before} frames written)", d)
+                    continue
+                if not w.pending("caller"):
+                    res.add(key, f"C11:stale-answer: the second call ended {w.results.get('caller')} with a message that had arrived before its request was written "
+                                 f"({filler} messages between the answer and it, all in one read)", d)
+                    continue
+                w.io_chunk(w.sock, w.dframe(mk("DeviceInfoResponse", name="answer-2")))
+                w.drain()
+                r = w.results.get("caller")
+                if r is None or r[0] != "ok" or r[1] != ("answer-1", "answer-2"):
+                    res.add(key, f"C11:burst: the two calls ended {r}, expected ('answer-1', 'answer-2')", d)
+            finally:
+                w.close()
+    return n
+
+
 def run(tier: str, seed: int) -> Result:
     res = Result("C11", "model_checking")
     total = Stats()
     q = tier == "quick"
     n_class = class_sweep(res)
     n_stall = stall_sweep(res)
+    n_burst = burst_sweep(res)
     cfgs = [("", 4 if q else 5, 1 if q else 2), ("A", 3 if q else 5, 2), ("B", 3 if q else 5, 2), ("AB", 3 if q else 4, 1 if q else 2),
             ("AC", 3 if q else 4, 2), ("ABC", 3 if q else 4, 1 if q else 2), ("BD", 3 if q else 4, 1 if q else 2),
             ("B.D", 3 if q else 4, 1 if q else 2), ("debug:AB", 3 if q else 4, 1 if q else 2), ("noise:AB", 3 if q else 4, 1 if q else 2), ("recycle:AB", 3 if q else 4, 1 if q else 2),
@@ -625,6 +673,7 @@ def run(tier: str, seed: int) -> Result:
         "endings_observed": sorted(ends),
         "close_cause_class_runs": n_class,
         "stalled_loop_runs": n_stall,
+        "burst_read_runs": n_burst,
         "distinct_outcomes": len(total.outcomes),
         "configs": per_cfg,
         "exhaustive": not total.time_capped,
@@ -641,6 +690,12 @@ def run(tier: str, seed: int) -> Result:
 
 def replay(rp: dict[str, Any]) -> bool:
     d = rp["detail"]
+    if d.get("harness") == "c11-burst":
+        r = Result("C11", "model_checking")
+        burst_sweep(r)
+        bad = [v for v in r.violations if v.key == d["key"]]
+        print(d["key"], "->", [v.clause for v in bad] or "holds")
+        return not bad
     if d.get("harness") == "c11-stall":
         r = Result("C11", "model_checking")
         stall_sweep(r)
